@@ -209,6 +209,9 @@ def run(ctx):
         extra = [x for x in gs if not (x.startswith("discr(branch(") and x.endswith(" = 0")) and not (x.startswith("starts_with_full(") and x.endswith(" = true"))]
         ctx.ob("A-ARITY-LEX", "%s: the component loop ends exactly when the closing bracket follows" % fn_name, not extra,
                "additional conditions on the loop exit: %s" % extra, "%s:%s" % (b["span"]["file"], b["span"]["line"]))
+    # component order is preserved end to end (formatter, templates, parsers, fold, accessors)
+    import maps as _maps
+    _maps.rule_O_ORDER(ctx)
     ctx.undecided = ["structural equality of the re-parsed tree for all vocabulary-consistent values (nesting- and value-dependent)"]
     ctx.assumptions = ["nar_dev_utils join helpers and dictionaries behave as summarised (source hash asserted)"]
     ctx.trusted = ["rustc HIR/MIR", "mirfacts driver", "pinned nar_dev_utils 0.42.3 source", "python rule layer"]
